@@ -60,7 +60,44 @@ def run(cfg):
     inline_rule(cfg, R)
     pydb_rule(cfg, R)
     scope_subset_rule(cfg, R)
+    zone_list_rule(cfg, R)
     return R
+
+
+def zone_list_rule(cfg, R):
+    """R9 (E-SEQ, acv/genrender.py): the three generators write their files for one tagged database that also holds zones whose
+    names have no '/', a digit, a '+' and a '-' (EST, MST7MDT, Etc/GMT+1 are such names); the zones listed in zones.txt, the keys
+    of ZONE_INFO_MAP in zone_infos.py and the zones named in zone_registry.cpp must all be exactly the zones of the database."""
+    from .genrender import tagged_db, era
+    R.rule('R9', 'the zone list, the Python zone map and the C++ registry written for one database name exactly its zones (names without "/" included)', floor=3)
+    for scope in ('extended', 'basic'):
+        db = tagged_db(scope)
+        db['zones_map'] = dict(db['zones_map'])
+        for i, name in enumerate(('EST', 'MST7MDT', 'Tag/GMT+1', 'WET')):
+            db['zones_map'][name] = [era('-', 10000, 'X%dT' % i, 'Zone %s raw-x%d' % (name, i), offset=-3600 * (i + 1))]
+        want = set(db['zones_map'])
+        for gen, fname in (('zonelist', 'zones.txt'), ('python', 'zone_infos.py'), ('arduino', 'zone_registry.cpp')):
+            f, files = _files(cfg, R, gen, db)
+            c = '%s:%s[%s]:zones' % (gen, fname, scope)
+            R.instance('R9', c, f.loc)
+            if not isinstance(files, dict):
+                R.violation('R9', c, f.loc, 'writing the files of the tagged database raises %s' % files.what)
+                continue
+            text = files.get(fname)
+            if text is None:
+                R.violation('R9', c, f.loc, 'no file %s is written (files: %s)' % (fname, sorted(files)))
+                continue
+            if gen == 'zonelist':
+                got = {ln.strip() for ln in text.split('\n') if ln.strip() and not ln.lstrip().startswith('#')}
+            elif gen == 'python':
+                P = tables.PyTables(cfg, texts=files)
+                got = set(P.info_map)
+            else:
+                got = {n for n in want if re.search(r'&kZone%s\b' % re.escape(normalize_name(n)), text)} | \
+                      {m for m in re.findall(r'&kZone(\w+)', text) if m not in {normalize_name(n) for n in want}}
+            if got != want:
+                R.violation('R9', c, f.loc, '[%s] %s names %s; the database has the zones %s: missing %s, extra %s' % (
+                    scope, fname, sorted(got)[:12], sorted(want)[:12], sorted(want - got), sorted(got - want)))
 
 
 def scope_subset_rule(cfg, R):
@@ -714,5 +751,8 @@ SELFTEST = [
     dict(id='pydb-header-count', file='tools/zonedbpy/zone_infos.py', find='# numEras: 668', replace='# numEras: 667', rule='R6'),
     dict(id='pydb-cell-changed', file='tools/zonedbpy/zone_policies.py', regex=True, unique=False, nth=0, find=r"'atSeconds': 7200,", replace="'atSeconds': 3600,", rule='R6'),
     dict(id='pydb-map-crossed', file='tools/zonedbpy/zone_infos.py', find="    'Africa/Accra': ZONE_INFO_Africa_Accra, # Africa/Accra", replace="    'Africa/Accra': ZONE_INFO_Africa_Algiers, # Africa/Accra", rule='R6'),
+    dict(id='zone-list-skips-names-without-slash', file='tools/zonedb/zonelistgenerator.py',
+         find="        for name, eras in sorted(self.zones_map.items()):\n            zone_strings += name + '\\n'",
+         replace="        for name, eras in sorted(self.zones_map.items()):\n            if '/' not in name:\n                continue\n            zone_strings += name + '\\n'", rule='R9'),
     dict(id='sorted-with-key-silent', file='tools/zonedb/zonelistgenerator.py', find='        for name, eras in sorted(self.zones_map.items()):', replace='        for name, eras in sorted(self.zones_map.items(), key=lambda kv: kv[0]):', expect='silent'),
 ]
